@@ -21,5 +21,5 @@ g++ -fsanitize=thread $BUILD/h_tsan.o $BUILD/crc_tsan.o $BUILD/sched.o $BUILD/mc
 clang++ -fsanitize=address $BUILD/h.o $BUILD/crc.o $BUILD/mc.o -o $BUILD/c17
 g++ -fsanitize=address,alignment $BUILD/h_o0.o $BUILD/crc_o0.o $BUILD/mc.o -o $BUILD/c17_strict
 echo "crc $BUILD/c17" > $BUILD/runs.txt
-echo "strict $BUILD/c17_strict --only affine_basis,chaining_every_split,alignment_x_length,long_messages" >> $BUILD/runs.txt
+echo "strict $BUILD/c17_strict --only affine_basis,chaining_every_split,alignment_x_length,long_messages,recompute" >> $BUILD/runs.txt
 echo "reentrancy $BUILD/c17_tsan" >> $BUILD/runs.txt
